@@ -214,8 +214,11 @@ def replay_bin():
     return os.path.join(BUILD, "replay-target", "debug", "replay"), ""
 
 
-def find_witness(prop, seed, budget):
+def find_witness(prop, seed, budget, in_memory_only=False):
     kind = CONF["properties"][prop].get("witness_search")
+    if in_memory_only and kind:
+        # the cross-check of the quick tier: deterministic in-memory harnesses only (no real sockets, no timers)
+        kind = [k for k in kind if k != "rt_bulk"]
     if not kind:
         return None, "no concrete search harness exists for this property"
     if kind == ["rt_notified"]:
@@ -444,18 +447,22 @@ def check_property(prop, tier, seed):
     coverage["lost_aids"] = lost
     rc = 0
     crosscheck_hit = False
-    if tier == "thorough" and not violations and not undecided and pcfg.get("witness_search"):
-        # cross-check of what the contracts ASSUME (leaf stubs, on-paper composition): the search harnesses run the real
-        # code on generated inputs / schedules with a large budget although every obligation was discharged.  A failing
-        # input here refutes an assumption (or shows a defect outside the functions under contract) and is reported as a
-        # violation with that input as witness.  Bounded search: never counted as proved.
+    if not violations and not undecided and pcfg.get("witness_search"):
+        # cross-check of what the contracts ASSUME (leaf stubs, on-paper composition, what the normalisation rules abstract:
+        # N1 erases suspension points, N29 the priority of select arms): the search harnesses run the real code on generated
+        # inputs / schedules although every obligation was discharged.  A failing input here refutes an assumption (or shows
+        # a defect outside the functions under contract) and is reported as a violation with that input as witness.  Bounded
+        # search: never counted as proved.  Thorough tier: every harness, large budget.  Quick tier (added after seed C18h - a
+        # yield in the read loop, invisible to the contracts, was MISSED): the deterministic in-memory harnesses only, small budget.
         t_s = time.time()
+        xbudget = 2000000 if tier == "thorough" else 20000
         try:
-            witness, why = find_witness(prop, seed, 2000000)
+            witness, why = find_witness(prop, seed, xbudget, in_memory_only=(tier != "thorough"))
         except Exception as e:
             witness, why = None, f"search crashed: {e}"
-        coverage["thorough"]["search_crosscheck"] = {"harnesses": pcfg["witness_search"], "budget": 2000000, "wall_s": round(time.time() - t_s, 1),
-                                                     "result": "FAILING INPUT FOUND" if witness else why, "counts_as": "bounded search, not proof"}
+        tgt = coverage.setdefault("thorough" if tier == "thorough" else "quick_search_crosscheck", {})
+        tgt["search_crosscheck"] = {"harnesses": [k for k in pcfg["witness_search"] if tier == "thorough" or k != "rt_bulk"], "budget": xbudget, "wall_s": round(time.time() - t_s, 1),
+                                    "result": "FAILING INPUT FOUND" if witness else why, "counts_as": "bounded search, not proof"}
         if witness:
             os.makedirs(os.path.join(HERE, "replays"), exist_ok=True)
             path = os.path.join(HERE, "replays", f"{prop}-search-crosscheck.json")
